@@ -28,6 +28,8 @@ def tree_events(text):
     except BaseException:  # noqa
         return out
     nodes = rewrite.inorder(t)
+    if len(nodes) > 40:
+        return out          # (to_math_ml of a deep product takes exponential time in the pinned code; see DESIGN.md section 11 #13)
     try:
         xml = t.to_math_ml()
         out.append({"typ": "mathml", "text": text, "tags": tags_of(xml), "nconst": sum(isinstance(n, E.ConstantExpression) for n in nodes),
